@@ -351,6 +351,19 @@ func (d DimSet) addAll(o DimSet) DimSet {
 	return d
 }
 
+// allEqualBoolLiteral: a literal array / map of bool literals that are all equal.
+func allEqualBoolLiteral(e *Exp) bool {
+	if e == nil || (e.Kind != EArray && e.Kind != EMap) || len(e.Elems) == 0 {
+		return false
+	}
+	for _, x := range e.Elems {
+		if x == nil || x.Kind != EBool || x.B != e.Elems[0].B {
+			return false
+		}
+	}
+	return true
+}
+
 func expDims(e *Exp, selfDims map[string]DimSet, callDims map[string]map[string]DimSet) DimSet {
 	var d DimSet
 	var walk func(e *Exp)
@@ -554,7 +567,23 @@ func (m *Model) evalCall(pl *Pipeline, c *Call, inputs map[string]interface{}, i
 	disabledUnknown := false
 	if c.Disabled != nil {
 		ctxDeps = ctxDeps.addAll(expDeps(c.Disabled, inputDeps, callDeps), "disabled")
-		ctxDims = ctxDims.addAll(expDims(c.Disabled, inputDims, callDims))
+		dd := DimSet{}.addAll(expDims(c.Disabled, inputDims, callDims))
+		if c.Disabled.Kind == ERefSelf && len(c.Disabled.Path) == 0 {
+			// The compiler folds a control that is split over a literal with
+			// all elements equal into a constant: the call then does not
+			// depend on (and is not forked along) that dimension.
+			for k := range dd {
+				if strings.HasPrefix(k, "fold:") {
+					delete(dd, k[len("fold:"):])
+				}
+			}
+		}
+		for k := range dd {
+			if strings.HasPrefix(k, "fold:") {
+				delete(dd, k)
+			}
+		}
+		ctxDims = ctxDims.addAll(dd)
 		if !disabled {
 			v, _ := m.evalExp(c.Disabled, inputs, selfTypes, calls, callTypes)
 			if b, known := isTrue(v); known {
@@ -592,6 +621,9 @@ func (m *Model) evalCall(pl *Pipeline, c *Call, inputs map[string]interface{}, i
 			}
 			srcDims = srcDims.addAll(dm)
 			dm = DimSet{thisDim: true}.addAll(dm)
+			if allEqualBoolLiteral(b.Exp) {
+				dm["fold:"+thisDim] = true
+			}
 		} else {
 			args[b.Id] = m.Conv(v, t)
 		}
